@@ -297,9 +297,9 @@ def check(case):
               Phi = ref.inverse_root(S, lay.exponent, bracket_lo, clamp=True)      # smallest admissible ridge -> largest root
               Pi = nw["pres"][k]
               Pi = (Pi + Pi.T) / 2
-              scale = float(np.max(np.abs(Phi)))
+              scale = float(np.max(np.abs(Phi if Phi is not None else P)))
               lo_ok = float(np.linalg.eigvalsh(Pi - P)[0]) >= -tol * scale * nsz
-              hi_ok = Phi is not None and float(np.linalg.eigvalsh(Phi - Pi)[0]) >= -tol * scale * nsz
+              hi_ok = Phi is None or float(np.linalg.eigvalsh(Phi - Pi)[0]) >= -tol * scale * nsz
               require(lo_ok and hi_ok, "preconditioner-is-inverse-root",
                       f"{tag} preconditioner {k} (eigh, relative ridge): not between the inverse roots for ridge "
                       f"{bracket_lo:.3g} and {d:.3g} in the PSD order")
